@@ -4,6 +4,7 @@
 package aeadcase
 
 import (
+	"encoding/binary"
 	"errors"
 	"fmt"
 	"hash"
@@ -19,7 +20,10 @@ import (
 	aeadsubtle "github.com/tink-crypto/tink-go/v2/aead/subtle"
 	"github.com/tink-crypto/tink-go/v2/aead/xaesgcm"
 	txchacha "github.com/tink-crypto/tink-go/v2/aead/xchacha20poly1305"
+	"github.com/tink-crypto/tink-go/v2/core/registry"
 	"github.com/tink-crypto/tink-go/v2/internal/internalapi"
+	"github.com/tink-crypto/tink-go/v2/internal/primitiveregistry"
+	"github.com/tink-crypto/tink-go/v2/internal/protoserialization"
 	"github.com/tink-crypto/tink-go/v2/key"
 	macsubtle "github.com/tink-crypto/tink-go/v2/mac/subtle"
 	"github.com/tink-crypto/tink-go/v2/tink"
@@ -50,7 +54,7 @@ type Case struct {
 	Type     string
 	Variant  string
 	ID       uint32
-	Route    string // "handle", "key", "subtle"
+	Route    string // "handle", "key", "subtle"; DrawTypeRoutes only: "fullprim", "keymanager"
 	Key      []byte // AES / ChaCha key
 	MacKey   []byte // AES-CTR-HMAC only
 	Hash     string // AES-CTR-HMAC only
@@ -159,10 +163,33 @@ func Draw(t *rapid.T) *Case {
 
 // DrawType draws a usable configuration of the given type and builds its primitive.
 func DrawType(t *rapid.T, typ string) *Case {
+	return DrawTypeRoutes(t, typ, []string{"handle", "key", "subtle"})
+}
+
+// RoutesAll are the routes DrawTypeRoutes knows. Beyond the three of Draw:
+// "fullprim" = the per-key full primitive (prefix-aware) obtained from the internal primitive
+// registry, i.e. the object the keyset wrapper calls, without the wrapper around it;
+// "keymanager" = the serialized key through the global registry's key manager
+// (registry.PrimitiveFromKeyData): a raw primitive, no prefix whatever the key's variant.
+var RoutesAll = []string{"handle", "key", "subtle", "fullprim", "keymanager"}
+
+// DrawRoutes is Draw over the given routes (routes a type does not offer are left out).
+func DrawRoutes(t *rapid.T, routes []string) *Case {
+	return DrawTypeRoutes(t, rapid.SampledFrom(Types).Draw(t, "aeadtype"), routes)
+}
+
+// DrawTypeRoutes draws a usable configuration of the given type over the given routes.
+func DrawTypeRoutes(t *rapid.T, typ string, routes []string) *Case {
 	c := &Case{Type: typ, TagSize: 16, NonceLen: 12, IVSize: 12}
-	routes := []string{"handle", "key", "subtle"}
 	if typ == "XAESGCM" {
-		routes = []string{"handle", "key"}
+		// no aead/subtle constructor
+		var r []string
+		for _, x := range routes {
+			if x != "subtle" {
+				r = append(r, x)
+			}
+		}
+		routes = r
 	}
 	c.Route = rapid.SampledFrom(routes).Draw(t, "route")
 	c.Variant = tk.NoPrefix
@@ -249,6 +276,35 @@ func (c *Case) build() error {
 			return err
 		}
 		// the other types export no per-key constructor: use a one-key handle as well
+	}
+	switch c.Route {
+	case "fullprim":
+		v, err := primitiveregistry.Primitive(k)
+		if err != nil {
+			return err
+		}
+		p, ok := v.(tink.AEAD)
+		if !ok {
+			return fmt.Errorf("primitive registry returned %T, not a tink.AEAD", v)
+		}
+		c.P = p
+		return nil
+	case "keymanager":
+		ks, err := protoserialization.SerializeKey(k)
+		if err != nil {
+			return err
+		}
+		v, err := registry.PrimitiveFromKeyData(ks.KeyData())
+		if err != nil {
+			return err
+		}
+		p, ok := v.(tink.AEAD)
+		if !ok {
+			return fmt.Errorf("key manager returned %T, not a tink.AEAD", v)
+		}
+		// the key manager's primitive knows nothing about the keyset entry: no output prefix
+		c.Variant, c.ID, c.P = tk.NoPrefix, 0, p
+		return nil
 	}
 	h, err := tk.HandleFromKey(k)
 	if err != nil {
@@ -381,6 +437,40 @@ func FromBytes(sel uint32, seed uint64) (*Case, error) {
 		return nil, err
 	}
 	return c, nil
+}
+
+// BigLens are input lengths beyond the caps of the ordinary length mixtures (4 KiB page and 8/16/64
+// KiB buffer boundaries, 1 MiB), for size-gated code paths.
+var BigLens = []int{4095, 4096, 4097, 8193, 16383, 16384, 65535, 65537, 1 << 20}
+
+// bigLenTable weights BigLens: the cost of a case grows with the length, so the long ones are
+// rarer (1 MiB: 1 in 32 of the big draws).
+var bigLenTable = []int{4095, 4096, 4097, 4095, 4096, 4097, 4095, 4096, 4097, 4095, 4096, 4097, 4095, 4096, 4097,
+	8193, 8193, 8193, 8193, 16383, 16384, 16383, 16384, 16383, 16384, 65535, 65537, 65535, 65537, 65535, 65537, 1 << 20}
+
+// OneIn is true about once in n calls. rapid's integer generators favour small values and the ends
+// of a range (0 and 1 each make up 5% of the Uint64 draws, the maximum of an IntRange 2%), so the
+// decision is taken on a mix of eight byte draws; the all-zero draw (where the shrinker heads) is
+// false.
+func OneIn(t *rapid.T, label string, n int) bool {
+	_, hit := oneIn(t, label, n)
+	return hit
+}
+
+func oneIn(t *rapid.T, label string, n int) (uint64, bool) {
+	mix := func(v uint64) uint64 { return binary.LittleEndian.Uint64(gen.Expand(v, 8)) }
+	trigger := (mix(0)%uint64(n) + 1) % uint64(n)
+	v := mix(binary.LittleEndian.Uint64(rapid.SliceOfN(rapid.Byte(), 8, 8).Draw(t, label)))
+	return v / uint64(n), v%uint64(n) == trigger
+}
+
+// BigLen returns (n, true) with n from BigLens about once in oneIn calls, else (0, false).
+func BigLen(t *rapid.T, label string, n int) (int, bool) {
+	v, hit := oneIn(t, label+"_bigclass", n)
+	if !hit {
+		return 0, false
+	}
+	return bigLenTable[v%uint64(len(bigLenTable))], true
 }
 
 // Rebuild constructs the primitive again from the case's current Key / MacKey slices.
